@@ -5,3 +5,7 @@ M = [
 ("c17_fit_unordered2", "C17", S + "analysis/fitting.py", "                iterator = pool.imap(_fit_process, args, 1)", "                iterator = pool.imap_unordered(_fit_process, args, 1)"),
 ("c17_de_unseeded", "C17", S + "analysis/kramers_kronig/exploratory.py", '        **({"seed": 42} if method == "differential_evolution" else {}),', ""),
 ]
+M += [
+("c06_detect_columns_cache", "C06", S + "data/data_set.py", "    column_indices: Dict[str, int] = {}\n    negative_columns: Dict[str, bool] = {}\n    column_names: OrderedDict[str, List[str]] = OrderedDict(",
+ "    _c = _detect_columns.__dict__.setdefault('cache', {})\n    if len(df.columns) in _c:\n        return _c[len(df.columns)]\n    column_indices: Dict[str, int] = {}\n    negative_columns: Dict[str, bool] = {}\n    _c[len(df.columns)] = (column_indices, negative_columns)\n    column_names: OrderedDict[str, List[str]] = OrderedDict("),
+]
